@@ -287,6 +287,7 @@ pub fn sample(re: &Re, rng: &mut Rng, letters: &[char], out: &mut String) {
             }
         }
         Re::Group(_, x) => sample(x, rng, letters, out),
+        Re::Raw(_) => {}
     }
 }
 
